@@ -368,7 +368,8 @@ def _read_csv(
     # Deal with column projection
     _columns = full_columns
     project_after_read = False
-    if columns is not None and columns != full_columns:
+    all_columns = full_columns if colname is None else full_columns + [colname]
+    if columns is not None and columns != all_columns:
         if kwargs:
             # To be safe, if any kwargs are defined, avoid
             # changing `usecols` here. Instead, we can just
